@@ -107,7 +107,7 @@ enum DEv {
     Conn { machine: usize, key: Key },
     Wrote { op: usize, conn: usize, side: char, off: u64, len: usize, result: String },
     Data { machine: usize, key: Key, bytes: Vec<u8>, t_us: u64 },
-    Inj { op: usize, t_us: u64, a: usize, inj: usize, b: usize, pre: Box<Obs>, post: Box<Obs>, result: String, tgt: String, bytes: Vec<u8> },
+    Inj { op: usize, t_us: u64, a: usize, inj: usize, b: usize, pre: Box<Obs>, post: Box<Obs>, result: String, tgt: String, bytes: Vec<u8>, smac: u64, calls: Vec<&'static str>, mid_sessions: Vec<Key>, protos: Vec<String> },
     Fin { op: usize },
 }
 
@@ -235,8 +235,19 @@ impl Driver {
         let pci = machine.protocol::<Pci>().expect("machine has Pci");
         let inj = self.log.push(Ev::Inject { machine: self.idx, app: 9, act: op, slot: 0, smac, dst, target, bytes: bytes.clone() });
         set_cause(Some(inj));
+        elvis_core::protocols::verif_trace::begin();
         let r = pci.open(0).verif_receive(Message::new(bytes.clone()), smac as Mac, dst, target.type_id());
+        let calls = elvis_core::protocols::verif_trace::end();
         set_cause(None);
+        // the session table right after the synchronous call (nothing else has run yet)
+        let mut mid_sessions: Vec<Key> = machine.protocol::<Tcp>().map(|t| t.verif_tables().0.iter().map(|e| (ep_of(e.local), ep_of(e.remote))).collect()).unwrap_or_default();
+        mid_sessions.sort();
+        let mut protos: Vec<String> = [Target::Ipv4, Target::Udp, Target::Tcp, Target::Arp, Target::Pci, Target::Sockets, Target::Rec(0), Target::Rec(1), Target::Rec(2), Target::Rec(3)]
+            .iter()
+            .filter(|t| machine.get(t.type_id()).is_some())
+            .map(|t| t.name())
+            .collect();
+        protos.push("drv".into());
         let result = match r {
             Ok(()) => "ok".to_string(),
             Err(elvis_core::protocols::pci::pci_session::ReceiveError::Protocol(_)) => "err:Protocol".to_string(),
@@ -249,7 +260,7 @@ impl Driver {
         }
         let post = self.observe(machine);
         let b = self.log.push(Ev::Note(format!("inject-window-end {}", op)));
-        self.sh.devs.lock().unwrap().push(DEv::Inj { op, t_us, a, inj, b, pre: Box::new(pre), post: Box::new(post), result, tgt, bytes });
+        self.sh.devs.lock().unwrap().push(DEv::Inj { op, t_us, a, inj, b, pre: Box::new(pre), post: Box::new(post), result, tgt, bytes, smac, calls, mid_sessions, protos });
     }
 }
 
@@ -365,6 +376,93 @@ fn diff_obs(pre: &Obs, post: &Obs, with_views: bool, legit: &[Key]) -> Vec<Strin
         }
     }
     d
+}
+
+fn pname(n: &str) -> String {
+    // the TCP application of this run is the harness protocol `Driver` (a `TypeId` the scaffold has no name for)
+    if n == "unknown" {
+        "drv".to_string()
+    } else {
+        n.to_string()
+    }
+}
+
+fn list_or_dash(v: Vec<String>) -> String {
+    if v.is_empty() {
+        "-".into()
+    } else {
+        v.join(";")
+    }
+}
+
+/// `c14-path`: the op line of one injected frame (what the machine looked like right before, the
+/// frame) and what was OBSERVED: the value `PciSession::receive` returned, the `demux` functions
+/// entered (verif hook `verif_trace`), the recorder demuxed into by this very call chain, TCP
+/// headers the victim put on the wire for socket pairs that have no session (the resets of
+/// `Tcp::demux`; sessions speak through their own tasks), the session that appeared in the table.
+#[allow(clippy::too_many_arguments)]
+fn path_line(cfg: &Cfg, res: &RunResult, vmac: u64, inj: usize, b: usize, interleaved: bool, pre: &Obs, mid: &[Key], protos: &[String], result: &str, calls: &[&'static str], tgt: &str, smac: u64, bytes: &[u8]) -> (String, String) {
+    let ip = list_or_dash(pre.ipv4.iter().map(|(a, p, u)| format!("{}/{}/{}", a, p, pname(u))).collect());
+    let udp = list_or_dash(pre.udp.iter().map(|(e, u)| format!("{}:{}/{}", e.0, e.1, pname(u))).collect());
+    let lis = list_or_dash(pre.listens.iter().map(|(e, u)| format!("{}:{}/{}", e.0, e.1, pname(u))).collect());
+    let sess = list_or_dash(pre.sessions.iter().map(|k| format!("{}:{}:{}:{}", k.0 .0, k.0 .1, k.1 .0, k.1 .1)).collect());
+    let op = format!(
+        "frame il={} ck={} tgt={} mtu={} smac={} protos={} ip={} udp={} lis={} sess={} bytes={}",
+        interleaved as u8,
+        CHECKSUMS.load(std::sync::atomic::Ordering::SeqCst) as u8,
+        tgt,
+        cfg.mtu,
+        smac,
+        protos.join(","),
+        ip,
+        udp,
+        lis,
+        sess,
+        hex(bytes)
+    );
+    let ret = result.trim_start_matches("err:Demux:").trim_start_matches("err:").to_string();
+    let calls_s = if calls.is_empty() { "-".to_string() } else { calls.join("+") };
+    let app: Vec<String> = res
+        .events
+        .iter()
+        .filter_map(|x| match &x.ev {
+            Ev::Demux { app, cause: Some(c), payload, local, remote, .. } if *c == inj => {
+                let ep = |e: &Option<Ep>| e.map(|e| format!("{}:{}", e.addr, e.port)).unwrap_or("?".into());
+                Some(format!("rec{}/{}/{}/{}", app, hex(payload), ep(local), ep(remote)))
+            }
+            _ => None,
+        })
+        .collect();
+    // TCP headers sent by the victim inside the window for socket pairs without session
+    let mut replies: Vec<String> = vec![];
+    for x in res.events.iter().filter(|x| x.id > inj && x.id < b) {
+        if let Ev::Wire { to: None, smac: s, target: Target::Ipv4, bytes: w, .. } = &x.ev {
+            if *s == vmac && w.len() >= 40 && w[0] == 0x45 && w[9] == 6 {
+                let src = u32::from_be_bytes([w[12], w[13], w[14], w[15]]);
+                let dst = u32::from_be_bytes([w[16], w[17], w[18], w[19]]);
+                let sp = u16::from_be_bytes([w[20], w[21]]);
+                let dp = u16::from_be_bytes([w[22], w[23]]);
+                let key: Key = ((src, sp), (dst, dp));
+                if !pre.sessions.contains(&key) && !mid.contains(&key) {
+                    let mut h = w[20..40].to_vec();
+                    h[16] = 0;
+                    h[17] = 0;
+                    replies.push(format!("{}/{}/{}", hex(&h), src, dst));
+                }
+            }
+        }
+    }
+    let reply = if interleaved { "~".to_string() } else if replies.is_empty() { "-".to_string() } else { replies.join(",") };
+    let new: Vec<String> = mid.iter().filter(|k| !pre.sessions.contains(k)).map(|k| format!("{}:{}:{}:{}", k.0 .0, k.0 .1, k.1 .0, k.1 .1)).collect();
+    let out = format!(
+        "ret={} calls={} app={} reply={} new={}",
+        ret,
+        calls_s,
+        if app.is_empty() { "-".to_string() } else { app.join(",") },
+        reply,
+        if new.is_empty() { "-".to_string() } else { new.join(",") }
+    );
+    (op, out)
 }
 
 pub fn execute(lines: &[String]) -> CaseReport {
@@ -490,6 +588,9 @@ pub fn execute(lines: &[String]) -> CaseReport {
     // ---- per-op answers
     let mut ans: Vec<String> = lines.iter().map(|_| "-".to_string()).collect();
     ans[0] = "cfg".into();
+    // `c14-path`: per injected frame one self-contained line (state before + frame) and the observed outcome class
+    let path_mode = cfg.mix == "c14p";
+    let mut path: Vec<Option<(String, String)>> = lines.iter().map(|_| None).collect();
     // taints: (conn, writer side) -> time from which the prefix oracle is off; conn -> completion not required
     let mut taint_data: HashMap<(usize, char), u64> = HashMap::new();
     let mut no_complete: HashMap<(usize, char), String> = HashMap::new();
@@ -508,7 +609,7 @@ pub fn execute(lines: &[String]) -> CaseReport {
             DEv::Opened { op, result } => ans[*op] = format!("open {}", result),
             DEv::Wrote { op, off, len, result, .. } => ans[*op] = format!("w {} off={} len={}", result, off, len),
             DEv::Fin { op } => ans[*op] = format!("fin {}", res.status),
-            DEv::Inj { op, t_us, a, inj, b, pre, post, result, tgt, bytes } => {
+            DEv::Inj { op, t_us, a, inj, b, pre, post, result, tgt, bytes, smac, calls, mid_sessions, protos } => {
                 injected += 1;
                 let label = lines[*op].split_whitespace().nth(2).unwrap_or("?").to_string();
                 rep.count(format!("frame.{}", label));
@@ -689,6 +790,9 @@ pub fn execute(lines: &[String]) -> CaseReport {
                         rep.count(format!("strict.{}{}", kind, if interleaved { ".interleaved" } else { ".quiet" }));
                     }
                 }
+                if path_mode {
+                    path[*op] = Some(path_line(&cfg, &res, vmac, *inj, *b, interleaved, pre, mid_sessions, protos, result, calls, tgt, *smac, bytes));
+                }
                 ans[*op] = format!("inj ref={} state={} res={} resp={} reached={} il={} {}", refs.replace(' ', ","), state, result, if resp.is_empty() { "-".to_string() } else { resp.join("+") }, reached.len(), interleaved as u8, verdict_s);
             }
             _ => {}
@@ -776,7 +880,16 @@ pub fn execute(lines: &[String]) -> CaseReport {
         rep.fail(format!("the simulation ended with {} instead of the status the harness requested", res.status), "stack unexpected-exit-status");
     }
     for (i, l) in lines.iter().enumerate() {
-        rep.line(l.clone(), ans[i].clone());
+        if path_mode {
+            // the scenario lines are kept (they are what `--replay` re-executes); the model answers `-` to them
+            rep.line(l.clone(), "-");
+            if let Some((op, out)) = path[i].take() {
+                rep.count(format!("path.{}", out.split(' ').next().unwrap_or("")));
+                rep.line(op, out);
+            }
+        } else {
+            rep.line(l.clone(), ans[i].clone());
+        }
     }
     rep.count_n("frames.injected", injected);
     rep.nontrivial = injected >= 10 && completed > 0;
